@@ -264,6 +264,12 @@ def argparse_function(
                                                     "return_type"
                                                 ]["default"]
                                             )
+                                            or not isinstance(
+                                                intermediate_repr["returns"][
+                                                    "return_type"
+                                                ]["default"],
+                                                str,
+                                            )
                                             else ast.parse(
                                                 intermediate_repr["returns"][
                                                     "return_type"
